@@ -72,3 +72,55 @@ META["C13"] = {
                "thorough": {"reader_calls": 50000, "json_roundtrips": 50000, "distinct_nontrivial": 20000}},
     "exhaustive_note": "all 2^8 and 2^16 values of u8/i8/u16/i16 and both bit values were enumerated through every writer and reader",
 }
+
+
+def _viol(sig, what, info, detail=None):
+    d = {"what": what}
+    if detail:
+        d.update(detail)
+    return {"sig": sig, "case": "stats", "seed": info["seed"], "tier": info["tier"], "shard": 0,
+            "nshards": info["nshards"], "detail": d}
+
+
+def post_C14(agg, info):
+    import stats
+    hists = stats.merge_hists(agg["extra"].get("hist", []))
+    fam = stats.Family()
+    groups = {}
+    for name, h in hists.items():
+        p, st = stats.chi2_uniform(h)
+        fam.add("uniform:" + name, p, st)
+        kind_party, secret = name.rsplit(".secret", 1)
+        groups.setdefault(kind_party, []).append((secret, h))
+    for kp, lst in groups.items():
+        for i in range(len(lst)):
+            for j in range(i + 1, len(lst)):
+                p, st = stats.chi2_two_sample(lst[i][1], lst[j][1])
+                fam.add(f"two-sample:{kp}:secret{lst[i][0]}-vs-{lst[j][0]}", p, st)
+    bad, cov = fam.decide()
+    viol = []
+    for name, p, st, _ in bad:
+        kind = name.split(":")[0] + ":" + name.split(":")[1].split(".party")[0]
+        viol.append(_viol("C14|distribution|" + kind,
+                          f"the pair of shares one party holds is not uniform / depends on the secret: {name} p={p:.3g} chi2={st:.1f}", info))
+    cov["histograms"] = len(hists)
+    cov["draws_per_histogram"] = int(max([int(h.sum()) for h in hists.values()], default=0))
+    problems = [] if hists else ["no histograms were produced"]
+    return viol, cov, problems
+
+
+META["C14"] = {
+    "level": "exploration",
+    "rule": "random nested typed values (depth <= 3, all 11 scalar types, arrays, tuples, named tuples, vectors incl. empty) with uniform / "
+            "extreme / small / zero / all-ones contents, each shared with a fresh generator seed through TypedValue::secret_share, "
+            "get_local_shares_for_each_party, ReplicatedShares (for parties / local evaluation) and share_vector; a case is one typed "
+            "value; all are non-trivial; distinct by hash of (type, contents). Distribution part: the pair (slot i, slot i+1) of each "
+            "party over many generator seeds for BIT secrets {0,1} and u8 secrets {0,1,255,0x5a}",
+    "assumptions": COMMON_ASSUMPTIONS + [
+        "reconstruction is checked with the harness' own type-recursive modular adder",
+        "distribution: chi-square goodness of fit (uniform) and two-sample tests between secrets at family-wise alpha 1e-9 (Bonferroni); "
+        "detects gross dependence / non-uniformity, not sub-percent bias",
+    ],
+    "floors": {"quick": {"layouts_checked": 8000, "reveals": 6000, "distribution_draws": 100000, "distinct_nontrivial": 2000},
+               "thorough": {"layouts_checked": 200000, "reveals": 150000, "distribution_draws": 2000000, "distinct_nontrivial": 40000}},
+}
